@@ -493,7 +493,8 @@ Definition h_hstrlen (args : list bytes) : hres :=
     lift (api_hread (a0 args) 0 (fun h => match hash_hget (a1 args) h with
                                           | Some v => Z.of_nat (length v) | None => 0 end) now d)
          (fun n d' => ret [WInt n] d'))).
-(* HSCAN: the input cursor is echoed *)
+(* HSCAN key cursor [MATCH p] [COUNT n]: COUNT defaults to 10 and must be positive; the reply
+   carries the position the walk reached, 0 when it ran off the end *)
 Definition h_hscan (args : list bytes) : hres :=
   need 2 args
     (let cursor := parse_int_lax (a1 args) in
@@ -501,14 +502,15 @@ Definition h_hscan (args : list bytes) : hres :=
      match (if pm >? 1 then arg pm args else Some [x2a]) with
      | None => HPanic
      | Some pat =>
-         match (if pc >? 1 then pint (arg pc args) else Some (Some 0)) with
+         match (if pc >? 1 then pint (arg pc args) else Some (Some 10)) with
          | None => HPanic
          | Some None => HErr
          | Some (Some count) =>
+             if count <? 1 then HErr else
              HBody (fun now d =>
                if negb (pattern_modelled pat) then BUnm else
-               lift (api_hread (a0 args) [] (hash_hscan cursor pat count) now d)
-                    (fun r d' => ret (WArr 2 :: WBulk (format_int cursor) :: flat_pairs r) d'))
+               lift (api_hread (a0 args) (0, []) (hscan_call cursor pat count) now d)
+                    (fun r d' => ret (WArr 2 :: WBulk (format_int (fst r)) :: flat_pairs (snd r)) d'))
          end
      end).
 
@@ -829,7 +831,7 @@ Definition h_zstore (inter : bool) (args : list bytes) : hres :=
                                        (fun n d2 => ret [WInt n] d2)))
           end
     end.
-(* ZSCAN key cursor [MATCH p] [COUNT n]: the input cursor is echoed *)
+(* ZSCAN key cursor [MATCH p] [COUNT n] *)
 Definition h_zscan (args : list bytes) : hres :=
   need 2 args
     match parse_int (a1 args) with
@@ -845,8 +847,8 @@ Definition h_zscan (args : list bytes) : hres :=
             | Some (Some count) =>
                 HBody (fun now d =>
                   if negb (pattern_modelled pat) then BUnm else
-                  lift (api_zread (a0 args) [] (zset_zscan cursor pat count) now d)
-                       (fun its d' => ret (WArr 2 :: WBulk (format_int cursor) :: items_reply true its) d'))
+                  lift (api_zread (a0 args) (0, []) (zset_zscan cursor pat count) now d)
+                       (fun r d' => ret (WArr 2 :: WBulk (format_int (fst r)) :: items_reply true (snd r)) d'))
             end
         end
     end.
